@@ -80,7 +80,8 @@ def run(ctx):
         vfiles = ["Gen/Conv2_%s.v" % x for x in conv2.TYPES] + ["Gen/Conv2_zi.v", "Gen/Conv2All.v",
                                                                 "Conv/ConvThm.v", "Conv/ConvExamples.v",
                                                                 "Properties_C04.v", "Lin/Lu2Cases.v",
-                                                                "Conv/ConvN2.v", "Properties_C04n.v",
+                                                                "Conv/ConvN2.v", "Conv/ConvN2Examples.v",
+                                                                "Conv/ConvNModel.v", "Conv/ConvNModelQI.v", "Properties_C04n.v",
                                                                 "Conv/ConvNSpec.v", "Properties_C04ns.v"]
         ok, res = ctx.coq_obligations(vfiles)
         if not ok:
